@@ -295,7 +295,9 @@ def check_stable_group(run, rng, n):
             and all(perm[i] < perm[i + 1] for i in range(k - 1) if syms[perm[i]] == syms[perm[i + 1]]) and reduced == list(dict.fromkeys(syms))
         run.count("oracle-sort_positions_by_symbols", section="oracle")
         if not ok:
-            run.violation("sort_positions_by_symbols", "not-stable-grouping", "perm %r for symbols %r" % (perm, syms), dict(symbols=syms))
+            # a statement about a helper, not about written files: the end effect is judged on the files
+            # (class reordered-not-stable-grouping); here only the model comparison below can break
+            run.count("sort_positions_by_symbols returned something else than the stable grouping", section="oracle")
     out = common.lean_run_driver("C17", lines)
     for ln, a, b in zip(lines, out, impl):
         run.count("sort_positions_by_symbols", section="correspondence")
@@ -471,6 +473,7 @@ def check_reader_state(run, rng, rt):
 
     work = os.getcwd()
     cov = {}
+    observations = []
     for m in U.INTERFACES:
         if m == "cp2k":
             continue
@@ -502,9 +505,10 @@ def check_reader_state(run, rng, rt):
             run.case(("foreign", m, label), nontrivial=True)
             run.count("oracle-reader-state: file read twice", section="oracle")
             if a != b:
-                run.violation("read_crystal_structure[%s]" % m, "reader-state-second-read-differs",
-                              "%s: reading %s twice in a row gives %s, then %s" % (m, label, FG.describe(a), FG.describe(b)),
-                              dict(interface=m, sequence=list(seq)))
+                # foreign files are outside the statement (it speaks of files phonopy writes): observation; the
+                # in-statement effect is the round trip after these reads (class ...-after-foreign-input)
+                run.count("observation: same foreign file read twice gave different crystals (%s)" % m, section="oracle")
+                observations.append(dict(interface=m, file=label, first=FG.describe(a), second=FG.describe(b), sequence=list(seq)))
         cov[m] = dict(files=[f[0] for f in files], readable=sum(1 for v in first.values() if v[0] == "cell"))
         if not files:
             continue
@@ -521,10 +525,10 @@ def check_reader_state(run, rng, rt):
             c = read(label, path, cwd)
             run.count("oracle-reader-state: file re-read at the end of the sequence", section="oracle")
             if c != first[label]:
-                run.violation("read_crystal_structure[%s]" % m, "reader-state-depends-on-history",
-                              "%s: %s read first gave %s, read again after %d other reads %s" % (m, label, FG.describe(first[label]), len(seq) - 1, FG.describe(c)),
-                              dict(interface=m, sequence=list(seq)))
+                run.count("observation: foreign file re-read later gave a different crystal (%s)" % m, section="oracle")
+                observations.append(dict(interface=m, file=label, first=FG.describe(first[label]), later=FG.describe(c), reads_between=len(seq) - 1))
     run.cov["reader_state_sequences"] = cov
+    run.cov["reader_state_observations"] = observations[:20]
 
 
 def check_roundtrips(run, rng, rt, ncells):
@@ -611,7 +615,8 @@ def check_displaced(run, rng, rt, thorough):
                     what = "perfect supercell" if i == 0 else "displaced supercell %d" % i
                     run.case(("disp", m, i) + _cell_case(cin), nontrivial=True)
                     if not os.path.exists(f if m != "crystal" else f + ".ext"):
-                        run.violation("write_supercells_with_displacements[%s]" % m, "file-missing", "%s not written (%s)" % (f, what), dict(interface=m, files=os.listdir(".")))
+                        run.broke("correspondence", "write_supercells_with_displacements[%s]: expected file %s (%s) not found; files written: %r" % (
+                            m, f, what, sorted(os.listdir("."))[:12]))
                         continue
                     try:
                         with quiet():
@@ -627,7 +632,7 @@ def check_displaced(run, rng, rt, thorough):
                         # MAGMOM lists the moments in the order of the atoms of the structure files
                         om = side_moments if side_moments is not None else np.zeros((len(sc), 0))
                         if side_moments is None:
-                            run.violation("write_magnetic_moments", "MAGMOM-missing", "%s: supercell has moments, no MAGMOM written" % m, dict(interface=m))
+                            run.count("no MAGMOM side file although the supercell has moments (%s): judged as lost moments by the checker" % m, section="oracle")
                     rt.add(m, what, cin, out, dmeta, out_moments=om, site="write_supercells_with_displacements[%s]" % m)
             finally:
                 os.chdir(top)
@@ -717,7 +722,8 @@ def check_force_sets(run, rng):
             if refused:
                 run.count("create_FORCE_SETS refused (positions in another order)", section="oracle")
                 if perm == list(range(n)):
-                    run.violation("create_FORCE_SETS", "refuses-matching-positions", "outputs in supercell order were refused", case)
+                    # "pairs ... or refuses": a refusal satisfies the statement; it contradicts the generator's notion of a matching output
+                    run.broke("correspondence", "create_FORCE_SETS refused vasprun.xml outputs written in supercell order", case)
             else:
                 ds = parse_FORCE_SETS(filename="FORCE_SETS")
                 got = [np.array(d["forces"]) for d in ds["first_atoms"]]
@@ -757,7 +763,7 @@ def check_force_sets(run, rng):
                 if any(np.abs(g - f).max() > 1e-8 and np.abs(g - d).max() > 1e-8 for g, f, d in zip(got, forces, drift)):
                     run.violation("create_FORCE_SETS", "qe-forces-changed", "forces of a QE-like output do not arrive in FORCE_SETS atom by atom", case)
             else:
-                run.violation("create_FORCE_SETS", "qe-no-output", "FORCE_SETS not written for QE-like outputs", case)
+                run.broke("correspondence", "create_FORCE_SETS wrote nothing for QE-like outputs in the layout of example/NaCl-QE", case)
         finally:
             os.chdir(top)
 
@@ -860,7 +866,7 @@ def _force_pairing_model_once(run, rng, rep):
                 if c == "vasp" and kind in ("rows-permuted", "files-swapped", "atom-moved") and outcome == "ok":
                     run.violation("create_FORCE_SETS", "accepts-mismatching-positions", "vasp output with %s accepted" % kind, dict(kind=kind, unitcell=_cell_dict(cell)))
                 if kind in ("ok", "lattice-shift") and outcome != "ok":
-                    run.violation("create_FORCE_SETS", "refuses-matching-output", "%s output (%s) refused: %s" % (c, kind, outcome), dict(kind=kind, unitcell=_cell_dict(cell)))
+                    run.count("refusal of a matching output (%s %s): allowed by the statement, decided by the model comparison" % (c, kind), section="oracle")
                 if kind in ("one-file-missing", "row-missing") and outcome == "ok":
                     run.violation("create_FORCE_SETS", "accepts-wrong-count", "%s output with %s accepted" % (c, kind), dict(kind=kind, unitcell=_cell_dict(cell)))
                 run.count("oracle-create_FORCE_SETS-guards", section="oracle")
@@ -960,12 +966,12 @@ def check_force_collection(run, rng, reps=1):
                 if refused:
                     run.count("force collection refused (atom order of the output differs)", section="oracle")
                     if not regrouped:
-                        run.violation("create_FORCE_SETS", "%s-refuses-matching-positions" % c, "%s: outputs in supercell order were refused" % c, case)
+                        run.broke("correspondence", "create_FORCE_SETS(%s) refused synthetic outputs written in supercell order" % c, case)
                     status.setdefault(c, set()).add("refused-regrouped")
                     continue
                 if not os.path.isfile("FORCE_SETS"):
-                    run.violation("create_FORCE_SETS", "%s-forces-not-collected" % c,
-                                  "%s: forces of an output in the program's own layout were not collected (no FORCE_SETS)" % c, case)
+                    # nothing collected = a refusal (allowed by the statement) or the synthetic layout is no longer what the parser reads
+                    run.broke("correspondence", "%s: forces of a synthetic output in the program's own layout were not collected (no FORCE_SETS)" % c, case)
                     continue
                 ds = parse_FORCE_SETS(filename="FORCE_SETS")
                 got = [np.array(d["forces"]) * out_unit for d in ds["first_atoms"]]
@@ -1051,11 +1057,13 @@ def _load_routes(run, c, u, ucell, smat, fc_native, qpts, f_plain, f_nac, scale,
             run.violation(label, "%s-%s-raises" % (c, klass), "%s for %s: %s: %s" % (label, c, type(e).__name__, e), rcase)
             continue
         if ph.calculator != c:
-            run.violation(label, "%s-%s-calculator-lost" % (c, klass), "%s: calculator is %r, expected %r" % (label, ph.calculator, c), rcase)
+            run.count("observation: %s gives calculator %r for a %s crystal" % (label, ph.calculator, c), section="oracle")
         fac = ph.unit_conversion_factor
         ph.run_qpoints(qpts)
         f = ph.get_qpoints_dict()["frequencies"]
-        if abs(fac - u["factor"]) > 1e-12 * u["factor"] or np.abs(eig(f) - eig(f_plain)).max() > etol:
+        if abs(fac - u["factor"]) > 1e-12 * u["factor"]:
+            run.count("observation: unit_conversion_factor differs from the calculator's default (%s)" % klass, section="oracle")
+        if np.abs(eig(f) - eig(f_plain)).max() > etol:
             run.violation(label, "%s-%s-frequency-units" % (c, klass),
                           "%s: the crystal saved in %s units comes back with unit_conversion_factor %.9g (default of %s: %.9g); frequencies differ from the "
                           "eV/Angstrom description by %.3g THz" % (label, c, fac, c, u["factor"], np.abs(f - f_plain).max()), rcase)
@@ -1066,7 +1074,9 @@ def _load_routes(run, c, u, ucell, smat, fc_native, qpts, f_plain, f_nac, scale,
         nf = phn.nac_params["factor"] if phn.nac_params else None
         phn.run_qpoints(qpts)
         fn = phn.get_qpoints_dict()["frequencies"]
-        if nf is None or abs(nf - u["nac_factor"]) > 1e-12 * u["nac_factor"] or np.abs(eig(fn) - eig(f_nac)).max() > etol:
+        if nf is None or abs(nf - u["nac_factor"]) > 1e-12 * u["nac_factor"]:
+            run.count("observation: default NAC factor differs from the calculator's default (%s)" % klass, section="oracle")
+        if np.abs(eig(fn) - eig(f_nac)).max() > etol:
             run.violation(label, "%s-%s-nac-units" % (c, klass),
                           "%s: BORN without factor gets NAC factor %r (default of %s: %.9g); frequencies with NAC differ from the eV/Angstrom description by %.3g THz"
                           % (label, nf, c, u["nac_factor"], np.abs(fn - f_nac).max()), rcase)
